@@ -3,8 +3,8 @@ from vlib.runner import Group, run_property
 
 SUM = ["deps.dev/util/semver.compare", "(deps.dev/util/semver.Set).matchVersion", "deps.dev/util/semver.canon$1",
        "(*deps.dev/util/semver.Constraint).MatchVersionPrerelease"]
-NCONS = {0: 24, 4: 24, 1: 24, 2: 4, 5: 15}
-QUICK = {0: [1, 5, 7, 9, 11, 16, 17], 4: [2, 6, 8, 10, 12, 15, 19], 1: [0, 5, 9, 13, 14, 17, 23], 2: [0, 1, 2], 5: [0, 1, 4, 5, 6, 8, 10]}
+NCONS = {0: 29, 4: 29, 1: 26, 2: 5, 5: 17}
+QUICK = {0: [1, 5, 7, 9, 11, 16, 17, 25, 26, 27], 4: [2, 6, 8, 10, 12, 15, 19, 25, 26, 28], 1: [0, 5, 9, 13, 14, 17, 23, 24, 25], 2: [0, 1, 2, 4], 5: [0, 1, 4, 5, 6, 8, 10, 15, 16]}
 
 
 def run(tier):
@@ -13,7 +13,9 @@ def run(tier):
                 panic_is_violation=True)
     for sys in NCONS:
         ts = QUICK[sys] if tier == "quick" else list(range(NCONS[sys]))
-        tvs = [0, 1] if tier == "quick" else [0, 1, 2, 3]
+        tvs = [0, 1, 2] if tier == "quick" else [0, 1, 2, 3]
+        if sys == 5:
+            tvs = tvs + [4]
         for tc in ts:
             for tv in tvs:
                 jobs.append(dict(base, harness="VerifC11RoundTrip", params={"sys": sys, "tc": tc, "tv": tv}))
